@@ -596,14 +596,14 @@ MC_RUNS = {
 }
 MC_RUNS["thorough"] = [
     # (value-length sets trimmed to the boundary triples: measured 62 min for the tier on a loaded machine with 11 lengths)
-    ("i256", [1, 2, 3, 4, 5, 6], [0, 4, 67, 68, 69, 500, 968, 969], [1, 2], 4, False),
+    ("i256", [1, 2, 3, 4, 5], [0, 4, 67, 68, 69, 500, 968, 969], [1, 2], 4, False),
     ("i256", [1, 2, 3, 4], [4, 68, 69, 500, 968], [1], 5, True),
     ("i128", [1, 2, 3, 4, 5, 6], [0, 1, 4, 500, 967, 968, 969, 2000], [1, 2], 4, True),
-    ("i1024", [1, 2, 3, 4, 5, 6], [0, 1, 4, 500, 835, 836, 837, 967, 968, 969, 2000], [1], 4, False),
-    ("i256ea", [1, 2, 3, 4, 5, 6], [0, 4, 68, 69, 500, 968, 969, 2000], [1], 4, False),
-    ("i256ea", [1, 2, 3, 4], [4, 68, 69, 500, 968, 969, 2000], [1, 2], 4, True),
+    ("i1024", [1, 2, 3, 4, 5, 6], [0, 4, 500, 835, 836, 837, 968, 969], [1], 4, False),
+    ("i256ea", [1, 2, 3, 4, 5], [0, 4, 68, 69, 500, 968, 969, 2000], [1], 4, False),
+    ("i256ea", [1, 2, 3, 4], [68, 69, 500, 968, 969, 2000], [1, 2], 4, True),
     ("i128ea", [1, 2, 3, 4], [4, 500, 968, 969, 2000], [1], 5, True),
-    ("i256inl", [1, 2, 3, 4, 7], [0, 4, 44, 48, 49, 68, 500], [1, 2], 4, False),
+    ("i256inl", [1, 2, 4, 7], [0, 4, 44, 48, 49, 68, 500], [1, 2], 4, False),
     ("i1024inlea", [1, 2, 4, 7], [4, 500, 816, 817, 836, 968, 969, 2000], [1], 4, True),
     ("i256inl", [1, 4, 7], [0, 4, 44, 68, 500], [1, 2], 4, True,
      dict(FSizes=[1, 60, 61, 104, 105, 128, 129, 1024, 1025, 3000])),
@@ -901,7 +901,7 @@ def plan(tier, rng):
     if tier == "quick":
         n_lib, n_dbg, nops = 70, 8, 9
     else:
-        n_lib, n_dbg, nops = 900, 100, 12
+        n_lib, n_dbg, nops = 700, 100, 12
     for pname in PROFILES:
         for i in range(n_lib):
             behs.append(dict(profile=pname, front="lib", persist=i % 2, ops=gen_history(rng, pname, nops if i % 3 else 5, "lib", tier)))
